@@ -1,12 +1,464 @@
-//! C02 — ops evaluated on the real code and the generator of their inputs.
-#![allow(unused_imports, dead_code, clippy::all)]
+//! C02 — every read-only query of graaf, evaluated on the real code.
+//!
+//! Every op builds the digraph from its description through the public API, clones it,
+//! evaluates the queries and finally compares the digraph with the clone (`unchanged`).
+//! The first output is always the observation `[order [vertices] [arcs]]` (`[u v]`, or
+//! `[u v w]` for the weighted representations) — the driver's oracle recomputes every
+//! query from it with the textbook definitions.  A query that panics yields the atom `panic`
+//! (each call is wrapped individually).
+//!
+//!   q_global <desc>          => obs size [sinks] [sources] [indegseq] [outdegseq] [semidegseq]
+//!                               maxdeg mindeg maxin minin maxout minout unchanged
+//!   q_degseq <desc>          => obs [degree_sequence] unchanged        (AdjacencyList: threaded)
+//!   q_vertex <desc> [ids]    => obs [[outN inN indeg outdeg deg sink source isolated pendant outNW]…] unchanged
+//!   q_pairs  <desc> [ids]    => obs [has_arc 0/1 …] [has_edge 0/1 …] [arc_weight …] unchanged   (row major over ids×ids)
+//!   q_walks  <desc> [walks]  => obs [has_walk 0/1 …] unchanged
+//!   q_remove <desc> [[u v]…] => obs [[removed 0/1, digraph-unchanged-by-it 0/1]…] unchanged
+//!   q_all <desc> [vertex ids] [pair ids] [walks] [[u v]…]
+//!                            => obs, then the outputs of the six ops above in that order, unchanged
+#![allow(clippy::all)]
 
 use crate::graphs::{self, Desc};
 use crate::rng::Rng;
 use crate::value::V;
+use graaf::{
+    AdjacencyList, AdjacencyListWeighted, AdjacencyMap, AdjacencyMatrix, ArcWeight, Arcs, ArcsWeighted, Degree,
+    DegreeSequence, EdgeList, HasArc, HasEdge, HasWalk, InNeighbors, Indegree, IndegreeSequence, IsIsolated,
+    IsPendant, Order, OutNeighbors, OutNeighborsWeighted, Outdegree, OutdegreeSequence, RemoveArc,
+    SemidegreeSequence, Sinks, Size, Sources, Vertices,
+};
+use std::panic::{catch_unwind, AssertUnwindSafe};
 
-pub fn eval(_op: &str, _args: &[V]) -> Option<Vec<V>> {
-    None
+/// Weighted view: `None` for the unweighted representations.
+pub trait WeightView {
+    fn aw(&self, _u: usize, _v: usize) -> Option<Option<i128>> {
+        None
+    }
+    fn onw(&self, _u: usize) -> Option<Vec<(usize, i128)>> {
+        None
+    }
+    fn arcs_w(&self) -> Option<Vec<(usize, usize, i128)>> {
+        None
+    }
+}
+impl WeightView for AdjacencyList {}
+impl WeightView for AdjacencyMap {}
+impl WeightView for AdjacencyMatrix {}
+impl WeightView for EdgeList {}
+macro_rules! weighted_view {
+    ($w:ty) => {
+        impl WeightView for AdjacencyListWeighted<$w> {
+            fn aw(&self, u: usize, v: usize) -> Option<Option<i128>> {
+                Some(self.arc_weight(u, v).map(|w| *w as i128))
+            }
+            fn onw(&self, u: usize) -> Option<Vec<(usize, i128)>> {
+                Some(self.out_neighbors_weighted(u).map(|(v, w)| (v, *w as i128)).collect())
+            }
+            fn arcs_w(&self) -> Option<Vec<(usize, usize, i128)>> {
+                Some(self.arcs_weighted().map(|(u, v, w)| (u, v, *w as i128)).collect())
+            }
+        }
+    };
+}
+weighted_view!(usize);
+weighted_view!(isize);
+
+pub trait Q:
+    Clone
+    + PartialEq
+    + Order
+    + Size
+    + Vertices
+    + Arcs
+    + HasArc
+    + HasEdge
+    + HasWalk
+    + OutNeighbors
+    + InNeighbors
+    + Indegree
+    + Outdegree
+    + Degree
+    + IsIsolated
+    + IsPendant
+    + Sinks
+    + Sources
+    + DegreeSequence
+    + IndegreeSequence
+    + OutdegreeSequence
+    + SemidegreeSequence
+    + RemoveArc
+    + WeightView
+{
+}
+impl<T> Q for T where
+    T: Clone
+        + PartialEq
+        + Order
+        + Size
+        + Vertices
+        + Arcs
+        + HasArc
+        + HasEdge
+        + HasWalk
+        + OutNeighbors
+        + InNeighbors
+        + Indegree
+        + Outdegree
+        + Degree
+        + IsIsolated
+        + IsPendant
+        + Sinks
+        + Sources
+        + DegreeSequence
+        + IndegreeSequence
+        + OutdegreeSequence
+        + SemidegreeSequence
+        + RemoveArc
+        + WeightView
+{
 }
 
-pub fn gen(_rng: &mut Rng, _thorough: bool, _emit: &mut dyn FnMut(String)) {}
+/// One call of the real code; `panic` atom when it panics.
+fn g(f: impl FnOnce() -> V) -> V {
+    catch_unwind(AssertUnwindSafe(f)).unwrap_or_else(|_| V::atom("panic"))
+}
+
+fn b01(b: bool) -> V {
+    V::I(i128::from(b))
+}
+
+/// `[order [vertices] [arcs]]` (weighted: `[u v w]`).
+pub fn obs<D: Q>(d: &D) -> V {
+    let arcs = match d.arcs_w() {
+        Some(ws) => V::L(ws.into_iter().map(|(u, v, w)| V::L(vec![V::u(u), V::u(v), V::I(w)])).collect()),
+        None => V::pairs(d.arcs()),
+    };
+    V::L(vec![V::u(d.order()), V::us(d.vertices()), arcs])
+}
+
+/// `obs :: parts ++ [unchanged]`
+fn framed<D: Q>(d: &D, parts: impl FnOnce(&D) -> Vec<V>) -> Vec<V> {
+    let c = d.clone();
+    let mut out = vec![obs(d)];
+    out.extend(parts(d));
+    out.push(V::bool(*d == c));
+    out
+}
+
+fn global<D: Q>(d: &D) -> Vec<V> {
+    let mut out = vec![];
+    out.push(g(|| V::u(d.size())));
+    out.push(g(|| V::us(d.sinks())));
+    out.push(g(|| V::us(d.sources())));
+    out.push(g(|| V::us(d.indegree_sequence())));
+    out.push(g(|| V::us(d.outdegree_sequence())));
+    out.push(g(|| V::pairs(d.semidegree_sequence())));
+    out.push(g(|| V::u(d.max_degree())));
+    out.push(g(|| V::u(d.min_degree())));
+    out.push(g(|| V::u(d.max_indegree())));
+    out.push(g(|| V::u(d.min_indegree())));
+    out.push(g(|| V::u(d.max_outdegree())));
+    out.push(g(|| V::u(d.min_outdegree())));
+    out
+}
+
+fn degseq<D: Q>(d: &D) -> Vec<V> {
+    vec![g(|| V::us(d.degree_sequence()))]
+}
+
+fn vertex<D: Q>(d: &D, ids: &[usize]) -> Vec<V> {
+    let recs = ids
+        .iter()
+        .map(|&u| {
+            V::L(vec![
+                g(|| V::us(d.out_neighbors(u))),
+                g(|| V::us(d.in_neighbors(u))),
+                g(|| V::u(d.indegree(u))),
+                g(|| V::u(d.outdegree(u))),
+                g(|| V::u(d.degree(u))),
+                g(|| V::bool(d.is_sink(u))),
+                g(|| V::bool(d.is_source(u))),
+                g(|| V::bool(d.is_isolated(u))),
+                g(|| V::bool(d.is_pendant(u))),
+                g(|| match d.onw(u) {
+                    Some(ws) => V::L(ws.into_iter().map(|(v, w)| V::L(vec![V::u(v), V::I(w)])).collect()),
+                    None => V::atom("na"),
+                }),
+            ])
+        })
+        .collect();
+    vec![V::L(recs)]
+}
+
+fn pairs<D: Q>(d: &D, ids: &[usize]) -> Vec<V> {
+    let mut ha = vec![];
+    let mut he = vec![];
+    let mut aw = vec![];
+    for &u in ids {
+        for &v in ids {
+            ha.push(g(|| b01(d.has_arc(u, v))));
+            he.push(g(|| b01(d.has_edge(u, v))));
+            if let Some(w) = g_opt(|| d.aw(u, v)) {
+                aw.push(w);
+            }
+        }
+    }
+    vec![V::L(ha), V::L(he), V::L(aw)]
+}
+
+/// arc_weight: `None` for the unweighted representations (no entry at all).
+fn g_opt(f: impl FnOnce() -> Option<Option<i128>>) -> Option<V> {
+    match catch_unwind(AssertUnwindSafe(f)) {
+        Err(_) => Some(V::atom("panic")),
+        Ok(None) => None,
+        Ok(Some(None)) => Some(V::none()),
+        Ok(Some(Some(w))) => Some(V::I(w)),
+    }
+}
+
+fn walks<D: Q>(d: &D, ws: &[Vec<usize>]) -> Vec<V> {
+    let rs = ws.iter().map(|w| g(|| b01(d.has_walk(w)))).collect();
+    vec![V::L(rs)]
+}
+
+fn remove<D: Q>(d: &D, ps: &[(usize, usize)]) -> Vec<V> {
+    let rs = ps
+        .iter()
+        .map(|&(u, v)| {
+            let mut e = d.clone();
+            let r = catch_unwind(AssertUnwindSafe(|| e.remove_arc(u, v)));
+            match r {
+                Ok(r) => V::L(vec![b01(r), b01(e == *d)]),
+                Err(_) => V::atom("panic"),
+            }
+        })
+        .collect();
+    vec![V::L(rs)]
+}
+
+pub fn eval(op: &str, args: &[V]) -> Option<Vec<V>> {
+    if !op.starts_with("q_") {
+        return None;
+    }
+    let desc = Desc::parse(args.first()?)?;
+    let ids_at = |i: usize| args.get(i).and_then(V::as_usizes);
+    let walks_at =
+        |i: usize| -> Option<Vec<Vec<usize>>> { args.get(i)?.as_list()?.iter().map(V::as_usizes).collect() };
+    match op {
+        "q_global" => Some(crate::with_digraph!(&desc, d => framed(&d, |d| global(d)))),
+        "q_degseq" => Some(crate::with_digraph!(&desc, d => framed(&d, |d| degseq(d)))),
+        "q_vertex" => {
+            let ids = ids_at(1)?;
+            Some(crate::with_digraph!(&desc, d => framed(&d, |d| vertex(d, &ids))))
+        }
+        "q_pairs" => {
+            let ids = ids_at(1)?;
+            Some(crate::with_digraph!(&desc, d => framed(&d, |d| pairs(d, &ids))))
+        }
+        "q_walks" => {
+            let ws = walks_at(1)?;
+            Some(crate::with_digraph!(&desc, d => framed(&d, |d| walks(d, &ws))))
+        }
+        "q_remove" => {
+            let ps = args.get(1)?.as_pairs()?;
+            Some(crate::with_digraph!(&desc, d => framed(&d, |d| remove(d, &ps))))
+        }
+        "q_all" => {
+            let (vids, pids, ws, ps) = (ids_at(1)?, ids_at(2)?, walks_at(3)?, args.get(4)?.as_pairs()?);
+            Some(crate::with_digraph!(&desc, d => framed(&d, |d| {
+                let mut out = global(d);
+                out.extend(degseq(d));
+                out.extend(vertex(d, &vids));
+                out.extend(pairs(d, &pids));
+                out.extend(walks(d, &ws));
+                out.extend(remove(d, &ps));
+                out
+            })))
+        }
+        _ => None,
+    }
+}
+
+// ---------------------------------------------------------------------------------------
+// generator
+// ---------------------------------------------------------------------------------------
+
+/// Probe ids: every id of `0..order+2` for small digraphs, a sample (with the boundary ids
+/// `0, order-1, order, order+1`) for large ones; for a sparse map its vertices plus absent ids.
+fn probe_ids(rng: &mut Rng, d: &Desc, cap: usize) -> Vec<usize> {
+    let n = d.order();
+    let contiguous = d.verts.iter().enumerate().all(|(i, &v)| i == v);
+    let mut ids: Vec<usize> = if contiguous {
+        if n + 2 <= cap {
+            (0..n + 2).collect()
+        } else {
+            let mut s: Vec<usize> = vec![0, n - 1, n, n + 1];
+            while s.len() < cap {
+                let x = rng.below(n);
+                if !s.contains(&x) {
+                    s.push(x);
+                }
+            }
+            s
+        }
+    } else {
+        let mut s = d.verts.clone();
+        let mx = d.verts.iter().copied().max().unwrap_or(0);
+        for x in [0, 1, 5, mx + 1, mx + 7] {
+            if !s.contains(&x) {
+                s.push(x);
+            }
+        }
+        s
+    };
+    ids.sort_unstable();
+    ids
+}
+
+fn gen_walks(rng: &mut Rng, d: &Desc) -> Vec<Vec<usize>> {
+    let n = d.order();
+    let vs = &d.verts;
+    let mut out_rows: std::collections::BTreeMap<usize, Vec<usize>> = std::collections::BTreeMap::new();
+    for &(u, v) in &d.arcs {
+        out_rows.entry(u).or_default().push(v);
+    }
+    let follow = |rng: &mut Rng, len: usize| -> Vec<usize> {
+        // a walk that follows arcs as long as it can
+        let starts: Vec<usize> = out_rows.keys().copied().collect();
+        if starts.is_empty() {
+            return vec![vs[rng.below(n)]];
+        }
+        let mut w = vec![*rng.pick(&starts)];
+        while w.len() < len {
+            match out_rows.get(w.last().unwrap()) {
+                Some(r) if !r.is_empty() => w.push(*rng.pick(r)),
+                _ => break,
+            }
+        }
+        w
+    };
+    let mut ws = vec![];
+    // ~20 random: half arc-following (mostly true), half random vertex sequences
+    for _ in 0..10 {
+        let len = 2 + rng.below(7);
+        ws.push(follow(rng, len));
+    }
+    for _ in 0..10 {
+        let len = rng.below(6);
+        ws.push((0..len).map(|_| vs[rng.below(n)]).collect());
+    }
+    // ~10 adversarial
+    ws.push(vec![]);
+    ws.push(vec![vs[rng.below(n)]]);
+    let u = vs[rng.below(n)];
+    ws.push(vec![u, u]);
+    let mx = vs.iter().copied().max().unwrap_or(0);
+    let mut w = follow(rng, 5);
+    w.push(mx + 1); // ends outside V
+    ws.push(w);
+    let mut w = follow(rng, 5);
+    w.insert(0, mx + 2); // starts outside V
+    ws.push(w);
+    let mut w = follow(rng, 6);
+    w.reverse(); // reversed valid walk
+    ws.push(w);
+    let mut w = follow(rng, 6);
+    if w.len() >= 3 {
+        let k = 1 + rng.below(w.len() - 2);
+        w[k] = vs[rng.below(n)]; // one broken link in the middle
+    }
+    ws.push(w);
+    let mut w = follow(rng, 7);
+    if let Some(&last) = w.last() {
+        w.push(last); // repeated last vertex (self-loop step)
+    }
+    ws.push(w);
+    if let Some(&(a, b)) = d.arcs.first() {
+        ws.push(vec![a, b]);
+        ws.push(vec![b, a]);
+        ws.push(vec![a, b, a, b, a]);
+    }
+    ws
+}
+
+fn show_walks(ws: &[Vec<usize>]) -> V {
+    V::L(ws.iter().map(|w| V::us(w.iter().copied())).collect())
+}
+
+fn emit_all(rng: &mut Rng, d: &Desc, emit: &mut dyn FnMut(String)) {
+    let dv = d.to_v();
+    let n = d.order();
+    let vids = V::us(probe_ids(rng, d, if n <= 40 { 64 } else { 14 }));
+    let pids = V::us(probe_ids(rng, d, if n <= 40 { 64 } else { 22 }));
+    let ws = show_walks(&gen_walks(rng, d));
+    // remove_arc is total: present arcs, absent arcs, ids outside V
+    let mx = d.verts.iter().copied().max().unwrap_or(0);
+    let mut ps: Vec<(usize, usize)> = vec![(mx + 1, 0), (0, mx + 1), (mx + 1, mx + 2), (1 << 40, 0)];
+    for _ in 0..3 {
+        ps.push((d.verts[rng.below(n)], d.verts[rng.below(n)]));
+        if !d.arcs.is_empty() {
+            ps.push(*rng.pick(&d.arcs));
+        }
+    }
+    let ps = V::pairs(ps);
+    if n <= 8 {
+        // small digraphs: one line per group of queries (cheap, better diagnostics)
+        emit(format!("q_global {dv}"));
+        emit(format!("q_degseq {dv}"));
+        emit(format!("q_vertex {dv} {vids}"));
+        emit(format!("q_pairs {dv} {pids}"));
+        emit(format!("q_walks {dv} {ws}"));
+        emit(format!("q_remove {dv} {ps}"));
+    } else {
+        // larger ones: everything on one line (the description and the observation are long)
+        emit(format!("q_all {dv} {vids} {pids} {ws} {ps}"));
+    }
+}
+
+pub fn gen(rng: &mut Rng, thorough: bool, emit: &mut dyn FnMut(String)) {
+    if thorough {
+        // exhaustive small scope: every digraph on <= 3 vertices, every representation
+        for n in 1usize..=3 {
+            let pairs: Vec<(usize, usize)> =
+                (0..n).flat_map(|u| (0..n).filter(move |&v| v != u).map(move |v| (u, v))).collect();
+            for code in 0u32..(1 << pairs.len()) {
+                let arcs: Vec<(usize, usize)> =
+                    pairs.iter().enumerate().filter(|(i, _)| code >> i & 1 == 1).map(|(_, &p)| p).collect();
+                for repr in graphs::ALL_REPRS {
+                    let k = arcs.len();
+                    let d = Desc {
+                        repr: repr.to_string(),
+                        verts: (0..n).collect(),
+                        arcs: arcs.clone(),
+                        weights: (0..k).map(|i| (i as i128) % 5 + 1).collect(),
+                    };
+                    emit_all(rng, &d, emit);
+                }
+            }
+        }
+    }
+    // Random digraphs; emitted smallest first so that the first failing case (the one the
+    // orchestrator shrinks and reports) is a small one.
+    let mut descs: Vec<Desc> = vec![];
+    let n_base = if thorough { 300 } else { 56 };
+    for _ in 0..n_base {
+        let (_, base) = graphs::gen_desc(rng, "al", 130);
+        for repr in graphs::ALL_REPRS {
+            let mut d = base.with_repr(repr);
+            match repr {
+                "wu" => d.weights = d.arcs.iter().map(|_| i128::from(rng.range(0, 9))).collect(),
+                "wi" => d.weights = d.arcs.iter().map(|_| i128::from(rng.range(-9, 9))).collect(),
+                _ => {}
+            }
+            descs.push(d);
+        }
+    }
+    let n_sparse = if thorough { 300 } else { 50 };
+    for _ in 0..n_sparse {
+        descs.push(graphs::gen_am_sparse(rng, 12).1);
+    }
+    descs.sort_by_key(|d| (d.order(), d.arcs.len()));
+    for d in &descs {
+        emit_all(rng, d, emit);
+    }
+}
